@@ -27,5 +27,5 @@ impl Actor for A4 {}
 impl RestartableActor for A4 {}
 impl Handler<U> for A4 { async fn handle(&mut self, _: &mut Context<Self>, _: U) {} }
 
-async fn client(addr: Addr<A1>, mut addr3: Addr<A3>, mut addr1m: Addr<A1>) { let _ = addr.sender::<N>(); }
+async fn client(addr: Addr<A1>, mut addr3: Addr<A3>, mut addr1m: Addr<A1>, own: hannibal::OwningAddr<A1>) { let _ = addr.sender::<N>(); }
 fn main() {}
